@@ -37,6 +37,10 @@ type cfg struct {
 	// each sent one request: a start state with many groups; the alphabet then also has a
 	// request of a group never seen before
 	Prefill int
+	// Grand: a third level - quota G (max GrandMax) below the child C; requests to the
+	// grandchild URL are charged to G, C and P
+	Grand    bool
+	GrandMax int64
 }
 
 func quotaYAML(c cfg) string {
@@ -61,6 +65,9 @@ func quotaYAML(c cfg) string {
 			if c.ChildGroup {
 				sb.WriteString("        group_by_header: x-g\n")
 			}
+		}
+		if c.Grand {
+			fmt.Fprintf(&sb, "  - id: G\n    parent_id: C\n    filter:\n      url: h.com/c/g/*\n    strategy:\n      fixed_window:\n        max: %d\n        interval: %d\n        interval_unit: second\n", c.GrandMax, c.W)
 		}
 	}
 	return sb.String()
@@ -119,6 +126,10 @@ flow:
 func files(c cfg) eng.Files {
 	f := eng.Files{Flows: map[string]string{}, Quotas: map[string]string{"q.yaml": quotaYAML(c)}}
 	switch {
+	case c.Grand:
+		f.Flows["fg.yaml"] = flowYAML("fg", "h.com/c/g/*", "G")
+		f.Flows["fc.yaml"] = flowYAML("fc", "h.com/c/x/*", "C")
+		f.Flows["fp.yaml"] = flowYAML("fp", "h.com/p/*", "P")
 	case !c.Child:
 		f.Flows["fp.yaml"] = flowYAML("fp", "h.com/*", "P")
 	case c.BothLimit:
@@ -161,6 +172,9 @@ func alphabet(c cfg) []event {
 	targets := []string{"p"}
 	if c.Child {
 		targets = []string{"c", "p"}
+	}
+	if c.Grand {
+		targets = []string{"g", "c", "p"}
 	}
 	for _, t := range targets {
 		for _, g := range groups {
@@ -276,6 +290,12 @@ func (m *model) apply(e event) string {
 	url := "h.com/p/1"
 	if e.target == "c" {
 		url = "h.com/c/1"
+		if m.c.Grand {
+			url = "h.com/c/x/1"
+		}
+	}
+	if e.target == "g" {
+		url = "h.com/c/g/1"
 	}
 	v := eng.OnRequest(m.s, eng.Req{ID: fmt.Sprintf("r%d", m.n), URL: url, Headers: hs})
 	if v.Err != "" {
@@ -297,7 +317,18 @@ func (m *model) apply(e event) string {
 	okAll := true
 	// Quotas referenced by a Limiter are charged by that Limiter (their system flows are
 	// switched to no-ops): child first, the parent only if the child had room.
-	if e.target == "c" && m.c.BothLimit {
+	if e.target == "g" {
+		// three levels: the grandchild first, then each ancestor only if the level below had room
+		keys = append(keys, "G_default")
+		if !m.charge("G_default", m.c.GrandMax, now) {
+			okAll = false
+		} else {
+			keys = append(keys, "C_default")
+			if !m.charge("C_default", m.childMax(), now) {
+				okAll = false
+			}
+		}
+	} else if e.target == "c" && m.c.BothLimit {
 		// two flows match the child URL: the flow on the broader pattern (the parent's
 		// Limiter) runs first and, when the parent is full, answers before the child's
 		// Limiter is reached; otherwise the child's Limiter follows
@@ -348,6 +379,9 @@ func (m *model) apply(e event) string {
 			max := m.c.Max
 			if strings.HasPrefix(k, "C_") {
 				max = m.childMax()
+			}
+			if strings.HasPrefix(k, "G_") {
+				max = m.c.GrandMax
 			}
 			if w.admitted > max {
 				return fmt.Sprintf("BOUND quota %s let %d requests through in one window, max %d", k, w.admitted, max)
@@ -407,6 +441,8 @@ func configs(thorough bool) []cfg {
 		{Name: "parent max4 + child 50%", Max: 4, W: 2, Child: true, ChildPct: 50},
 		{Name: "parent max2 + child max1, both limiters on child URL", Max: 2, W: 2, Child: true, ChildMax: 1, BothLimit: true},
 		{Name: "custom counter max2 W2 (costs 1 and 3)", Max: 2, W: 2, Custom: true},
+		// three levels
+		{Name: "parent max3 + child max2 + grandchild max1", Max: 3, W: 2, Child: true, ChildMax: 2, Grand: true, GrandMax: 1},
 		// a non-initial start state: 1100 other groups have been seen (more than any plausible
 		// internal bound on tracked groups up to 1024)
 		{Name: "flat grouped max1 W2, 1100 other groups seen", Max: 1, W: 2, Group: true, Prefill: 1100},
